@@ -1,6 +1,7 @@
 package main
 
 import (
+	"hash/crc32"
 	"encoding/json"
 	"fmt"
 	"os"
@@ -524,7 +525,7 @@ func sanitizeFile(s string) string {
 	n := sanitize(s)
 	n = strings.NewReplacer("#", "-", "@", "-", ":", "-", "<", "lt", ">", "gt", "=", "eq", "&", "and", "|", "or", "!", "not", "+", "plus", "%", "pct", ",", "_", "'", "", "\"", "", "{", "_", "}", "_", "~", "-", "^", "x", ";", "_", "?", "_").Replace(n)
 	if len(n) > 120 {
-		n = n[:120]
+		n = fmt.Sprintf("%s_%08x", n[:110], crc32.ChecksumIEEE([]byte(s)))
 	}
 	return n
 }
